@@ -142,19 +142,17 @@ def r1(ctx):
       'len: Empty(n) / Full(n) -> n, Nested -> sum of inner lens; weights: Empty -> 0 x n, Full -> 1 (sum) | 1/n (mean) x n, '
       'Nested -> inner weights x (1 (sum) | 1/#groups (mean))')
 def r2(ctx):
+    from analysis.alts import ret_table
+    from analysis.reduce import reduce_of
     ln = ctx.body(T + 'TokenGroup::len')
-    tbl = {}
-    for v, blk in ret_values(ln):
-        for tt, names in variant_facts_at(ln, blk):
-            if len(names) == 1:
-                tbl[list(names)[0]] = core(v)
-    ok = match(tbl.get('Empty', ()), ('field', ('variant', ('arg', 1, ANY), 'Empty'), 0)) and match(tbl.get('Full', ()), ('field', ('variant', ('arg', 1, ANY), 'Full'), 0)) and \
-        match(tbl.get('Nested', ()), Call('Iterator::sum', Call('Iterator::map', ('field', ('variant', ('arg', 1, ANY), 'Nested'), 0), ANY)))
-    if ok:
-        clo = closure_of(ctx, tbl['Nested'][2][0][2][1])
-        crv = ret_values(clo)
-        ok = len(crv) == 1 and match(core(crv[0][0]), Call('TokenGroup::len', ('arg', 2, ANY)))
-    ctx.require(ok, ln, 'len-table', 'TokenGroup::len per variant', 'len table: %s' % {k: show_in(ln, v) for k, v in tbl.items()})
+    tbl = ret_table(ctx.facts, ln, lambda c: c[0] == 'arg' and c[1] == 1) or {}
+    one_of = lambda k: tbl.get(k, [()])[0] if len(tbl.get(k, [])) == 1 else ()
+    ok = match(core(one_of('Empty')), ('field', ('variant', ('arg', 1, ANY), 'Empty'), 0)) and match(core(one_of('Full')), ('field', ('variant', ('arg', 1, ANY), 'Full'), 0))
+    rd = reduce_of(ctx.facts, ln, one_of('Nested')) if one_of('Nested') else None
+    ok = ok and rd is not None and rd.op == 'add' and rd.init is not None and match(core(rd.init), Const(0)) and len(rd.segs) == 1 and rd.segs[0].kind == 'each' and \
+        not rd.segs[0].conds and match(core(rd.segs[0].src), ('field', ('variant', ('arg', 1, ANY), 'Nested'), 0)) and match(core(rd.segs[0].elem), Call('TokenGroup::len', ITEM))
+    ctx.require(ok, ln, 'len-table', 'TokenGroup::len per variant: Empty(n) / Full(n) -> n, Nested -> sum of the inner lens',
+                'len table: %s (Nested: %r)' % ({k: [show_in(ln, x)[:60] for x in v] for k, v in tbl.items()}, rd))
     gw = ctx.body(T + 'TokenGroup::get_weights')
     one = Pred(lambda t: t[0] == 'const' and re.match(r'^(const )?1(\.0*)?f32$', t[1]) is not None)
     zero = Pred(lambda t: t[0] == 'const' and re.match(r'^(const )?0(\.0*)?f32$', t[1]) is not None)
@@ -184,15 +182,20 @@ def r2(ctx):
     ctx.require(okn, gw, 'weights|Nested-weight', 'Nested: factor 1 (sum) or 1/#groups (mean)', 'Nested factors: %s' % {str(k): show_in(gw, v) for k, v in wd.items() if k[0] == 'Nested'})
     ok = 'Full' in tbl and match(tbl['Full'][0], Call('from_elem', Pred(lambda t: t[0] in ('var', 'phi')), full_len))
     ctx.require(ok, gw, 'weights|Full', 'Full(n): n copies of the weight', None)
-    ok = 'Nested' in tbl and match(tbl['Nested'][0], Call('Iterator::collect', Call('Iterator::map', Call('Iterator::flat_map', ('field', ('variant', ('arg', 1, ANY), 'Nested'), 0), ANY), ANY)))
-    if ok:
-        t = tbl['Nested'][0]
-        c1 = closure_of(ctx, t[2][0][2][0][2][1])
-        c2 = closure_of(ctx, t[2][0][2][1])
-        r1_, r2_ = ret_values(c1), ret_values(c2)
-        ok = len(r1_) == 1 and match(core(r1_[0][0]), Call('TokenGroup::get_weights', ('arg', 2, ANY), ('upvar', ANY, ANY))) and \
-            len(r2_) == 1 and match(core(r2_[0][0]), ('bin', 'Mul', ('arg', 2, ANY), ('upvar', ANY, ANY)))
-    ctx.require(ok, gw, 'weights|Nested', 'Nested: inner.get_weights(agg) scaled by the factor', None)
+    ok = False
+    nsegs = None
+    for v, blk in ret_values(gw):
+        if any(names == {'Nested'} for tt, names in variant_facts_at(gw, blk)):
+            nsegs = seq_of(ctx.facts, gw, v)
+    if nsegs is not None and len(nsegs) == 1 and nsegs[0].kind == 'nest' and not nsegs[0].conds and \
+            match(core(nsegs[0].src), ('field', ('variant', ('arg', 1, ANY), 'Nested'), 0)) and len(nsegs[0].inner) == 1:
+        inn = nsegs[0].inner[0]
+        e_ = peel(inn.elem)
+        ok = inn.kind == 'each' and not inn.conds and match(core(inn.src), Call('TokenGroup::get_weights', ITEM, ('arg', 2, ANY))) and \
+            e_[0] == 'bin' and e_[1] == 'Mul' and ((core(e_[2]) == ('item', 1) and peel(e_[3])[0] in ('var', 'phi', 'choice')) or
+                                                    (core(e_[3]) == ('item', 1) and peel(e_[2])[0] in ('var', 'phi', 'choice')))
+    ctx.require(ok, gw, 'weights|Nested', 'Nested: the weights of every inner group, in order, each scaled by the factor',
+                'Nested weights are built as %s' % [repr(x)[:160] for x in nsegs or ()])
 
 
 @rule('C17', 'R-C17-3', 'T1 ORDER (padding)',
@@ -204,30 +207,53 @@ def r3(ctx):
     R['lengths'] = _one(b, r'^std::vec::Vec<usize>$', 'length vector')
     mlv = [core(t_.args[0] and sym(b, t_.dest)) for t_ in b.calls(r'Option::unwrap_or_default$|Option::unwrap_or$') if has(core(sym(b, t_.args[0])), Call('Iterator::max', ANY))]
     ML = T_(mlv[0]) if mlv else Pred(lambda t: False)
-    ext = [t for t in b.calls(r'Vec::extend$|Extend>::extend$') if match(core(sym(b, t.args[0])), _var('padded_ids'))]
-    ok = len(ext) == 2
-    lp = cfg.innermost_loop(b, ext[0].bb) if ext else None
-    if ok:
-        item = None
-        a0, a1 = core(sym(b, ext[0].args[1])), core(sym(b, ext[1].args[1]))
-        first, second = (ext[0], ext[1]) if cfg.dominates(b, ext[0].bb, ext[1].bb) else (ext[1], ext[0])
-        f, s = core(sym(b, first.args[1])), core(sym(b, second.args[1]))
-        ok = not has(f, Call('iter::repeat', ANY)) and match(s, Call('Iterator::take', Call('iter::repeat', ('arg', 2, ANY)), ('bin', 'Sub', ML, Call('len', ANY))))
-    ctx.require(ok, b, 'pad-order', 'pad_ids: values first, then repeat(pad).take(max_len - len)', 'pad_ids appends %s' % [show_in(b, sym(b, t.args[1])) for t in ext])
-    ml = mlv
-    ok = len(ml) == 1 and has(ml[0], Call('Iterator::max', ANY)) and has(ml[0], ('arg', 1, ANY))
-    ctx.require(ok, b, 'pad-max', 'max_len = max over the item lengths of the batch', None)
-    ps = [t for t in b.calls(r'Vec::push$') if match(core(sym(b, t.args[0])), _var('lengths'))]
-    ok = len(ps) == 1 and lp is not None and ps[0].bb in lp.blocks and match(core(sym(b, ps[0].args[1])), Call('len', ANY))
-    ctx.require(ok, b, 'pad-lengths', 'pad_ids records the true length of every item', None)
+    from analysis import poly
+    from analysis.seq import seq_of_var
+
+    def padded_rows(body, local, per_item_value, pad_pred, len_of_item, what):
+        """rows: for every item, its values then pad x (max - len(item))"""
+        segs = seq_of_var(ctx.facts, body, local)
+        top = segs[0] if segs is not None and len(segs) == 1 and segs[0].kind == 'nest' and not segs[0].conds and match(core(segs[0].src), ('arg', 1, ANY)) else None
+        ok = top is not None and len(top.inner) == 2 and not any(x.conds for x in top.inner)
+        if ok:
+            vals, pad = top.inner
+            ok = per_item_value(vals) and pad.kind == 'repeat' and pad_pred(core(pad.elem))
+            if ok:
+                # count = max - len(item) where max is a maximum over the batch
+                mx = [y for y in walk(pad.count) if isinstance(y, tuple) and y and y[0] == 'call' and y[1].endswith('Iterator::max')]
+                ok = bool(mx)
+                if ok:
+                    whole = [y for y in walk(pad.count) if isinstance(y, tuple) and y and y[0] in ('call', 'unwrap') and any(z is mx[0] for z in walk(y)) and
+                             (y[0] == 'unwrap' or re.search(r'unwrap_or(_default)?$|copied$|cloned$', y[1]))]
+                    mtree = max(whole, key=lambda y: len(repr(y))) if whole else mx[0]
+                    ls = [y for y in walk(pad.count) if isinstance(y, tuple) and y and y[0] == 'call' and y[1].endswith('len') and y[2] and core(y[2][0]) == ITEM]
+                    ok = bool(ls) and poly.poly(pad.count) == poly._add(poly.poly(mtree), poly.poly(ls[0]), -1) and has(mtree, ('arg', 1, ANY))
+        ctx.require(ok, body, what, '%s: per item its values, then the padding value x (max_len - len)' % what.split('|')[0],
+                    '%s is built as %s' % (what.split('|')[0], [repr(x)[:200] for x in segs or ()]))
+        return top
+    top = padded_rows(b, R['padded_ids'], lambda v: v.kind == 'each' and core(v.src) == ITEM and core(v.elem) == ('item', 1),
+                      lambda e: match(e, ('arg', 2, ANY)), lambda v: ('call', 'len', (v.src,)), 'pad-order')
+    lsegs = seq_of_var(ctx.facts, b, R['lengths'])
+    ok = lsegs is not None and len(lsegs) == 1 and lsegs[0].kind == 'each' and not lsegs[0].conds and match(core(lsegs[0].src), ('arg', 1, ANY)) and \
+        match(core(lsegs[0].elem), Call('len', ITEM))
+    ctx.require(ok, b, 'pad-lengths', 'pad_ids records the true length of every item', 'lengths are built as %s' % [repr(x)[:120] for x in lsegs or ()])
     pm = ctx.body(T + 'padding_mask')
-    ext = [t for t in pm.calls(r'Vec::extend$|Extend>::extend$')]
-    ok = len(ext) == 2
+    mloc = _one(pm, r'^std::vec::Vec<bool>$', 'mask vector')
+    msegs = seq_of_var(ctx.facts, pm, mloc)
+    topm = msegs[0] if msegs is not None and len(msegs) == 1 and msegs[0].kind == 'nest' and not msegs[0].conds and match(core(msegs[0].src), ('arg', 1, ANY)) else None
+    ok = topm is not None and len(topm.inner) == 2 and all(x.kind == 'repeat' and not x.conds for x in topm.inner)
     if ok:
-        first, second = (ext[0], ext[1]) if cfg.dominates(pm, ext[0].bb, ext[1].bb) else (ext[1], ext[0])
-        f, s = core(sym(pm, first.args[1])), core(sym(pm, second.args[1]))
-        ok = match(f, Call('Iterator::take', Call('iter::repeat', Const(1)), ANY)) and match(s, Call('Iterator::take', Call('iter::repeat', Const(0)), ('bin', 'Sub', Pred(lambda u: has(core(u), Call('Iterator::max', ANY))), ANY)))
-    ctx.require(ok, pm, 'mask-order', 'padding_mask: len x true, then (max - len) x false', None)
+        t_, f_ = topm.inner
+        ok = match(core(t_.elem), Const(1)) and match(core(f_.elem), Const(0)) and poly.poly(t_.count) == poly.poly(ITEM)
+        mx = [y for y in walk(f_.count) if isinstance(y, tuple) and y and y[0] == 'call' and y[1].endswith('Iterator::max')]
+        if ok and mx:
+            whole = [y for y in walk(f_.count) if isinstance(y, tuple) and y and y[0] in ('call', 'unwrap') and any(z is mx[0] for z in walk(y)) and
+                     (y[0] == 'unwrap' or re.search(r'unwrap_or(_default)?$|copied$|cloned$', y[1]))]
+            mtree = max(whole, key=lambda y: len(repr(y))) if whole else mx[0]
+            ok = poly.poly(f_.count) == poly._add(poly.poly(mtree), poly.poly(ITEM), -1) and has(mtree, ('arg', 1, ANY))
+        else:
+            ok = False
+    ctx.require(ok, pm, 'mask-order', 'padding_mask: len x true, then (max - len) x false', 'the mask is built as %s' % [repr(x)[:200] for x in msegs or ()])
 
 
 @rule('C17', 'R-C17-4', 'T13 PAIR (sparse aggregation matrix)',
